@@ -855,7 +855,7 @@ func HandleTranAgreed(cc *hotline.ClientConn, t *hotline.Transaction) (res []hot
 		}
 	}
 
-	cc.Icon = t.GetField(hotline.FieldUserIconID).Data
+	cc.Icon = hotline.LowTwoBytes(t.GetField(hotline.FieldUserIconID).Data)
 
 	cc.Logger = cc.Logger.With("Name", string(cc.UserName))
 	cc.Logger.Info("Login successful")
@@ -1477,11 +1477,7 @@ func HandleUploadFile(cc *hotline.ClientConn, t *hotline.Transaction) (res []hot
 }
 
 func HandleSetClientUserInfo(cc *hotline.ClientConn, t *hotline.Transaction) (res []hotline.Transaction) {
-	if len(t.GetField(hotline.FieldUserIconID).Data) == 4 {
-		cc.Icon = t.GetField(hotline.FieldUserIconID).Data[2:]
-	} else {
-		cc.Icon = t.GetField(hotline.FieldUserIconID).Data
-	}
+	cc.Icon = hotline.LowTwoBytes(t.GetField(hotline.FieldUserIconID).Data)
 	if cc.Authorize(hotline.AccessAnyName) {
 		cc.UserName = t.GetField(hotline.FieldUserName).Data
 	}
